@@ -55,6 +55,7 @@ class Run:
         self.n_effects = 0
         self.reused = set()
         self.tag_source = "fresh"
+        self.hijacked_at = None      # nesting depth of the block inside which sys.displayhook was replaced by foreign code
 
     def new_tag(self):
         from htmltools import Tag
@@ -77,6 +78,8 @@ class Run:
                 t = _copy.deepcopy(Tag("section", t)).children[0]
             elif src == "used-before":
                 str(t), t.render(), _copy.copy(t), t == Tag("div"), t.tagify()
+            elif src == "structurally-equal":
+                t = Tag("div", class_="row")      # every block's tag is == every other (distinct objects)
             else:
                 raise ValueError(src)
         self.tags[id(t)] = t
@@ -124,7 +127,9 @@ def run_body(body, stack, R: Run):
         if k == "disp":
             v = make_value(ev[1])
             contrib = model_children_for(v, ev[1])
-            if stack:
+            if stack and R.hijacked_at == len(stack):
+                sys.displayhook(v)          # goes to the foreign hook: nothing is appended, nothing raises
+            elif stack:
                 if contrib is None:
                     R.expected_fault = "TypeError"
                     R.n_effects += 1
@@ -178,6 +183,14 @@ def run_body(body, stack, R: Run):
                 raise Viol(f"{k}:hook-changed", "rendering another tree inside a block left sys.displayhook changed")
             if stack and len(stack[-1].children) != kids_before:
                 raise Viol(f"{k}:children-changed", "rendering another tree inside a block added children to the block's tag")
+        elif k == "replace-hook":
+            # foreign code inside the block takes over sys.displayhook and never puts it back: what is displayed
+            # afterwards in this block goes to the foreign hook; the block's exit still restores the hook that was
+            # installed when the block was entered
+            if stack and R.hijacked_at is None:
+                sys.displayhook = lambda v: None
+                R.hijacked_at = len(stack)
+                R.n_effects += 1
         elif k == "raise":
             R.expected_fault = "Boom"
             R.n_effects += 1
@@ -253,8 +266,12 @@ def run_block(tag, body, stack, R: Run):
             R.viols.append(("hook-not-restored", "sys.displayhook after a block exit is not the hook "
                             "installed when it was entered", {}))
             sys.displayhook = hook_before     # keep the rest of the run meaningful
+        if R.hijacked_at is not None and R.hijacked_at == len(stack) + 1:
+            R.hijacked_at = None          # the hijacked block itself has exited: its entry hook is back
         # R10: the tag is handed exactly once, on exit, to the enclosing hook
-        if stack:
+        if R.hijacked_at is not None and R.hijacked_at == len(stack):
+            pass                          # the enclosing hook is the foreign one: it receives (and drops) the tag
+        elif stack:
             R.exp_children[id(stack[-1])].append(("obj", id(tag)))
         else:
             R.exp_rec.append(("tag", id(tag)))
@@ -312,7 +329,7 @@ def run_program(prog, falsy_hook=False, tag_source="fresh"):
         for i, t in R.tags.items():
             got = [describe_child(c) for c in t.children]
             if got != R.exp_children[i] and i not in R.reused:
-                R.viols.append(("children", f"children of {t.attrs['id']} differ from the model",
+                R.viols.append(("children", f"children of {t.attrs.get('id', '<div class=row>')} differ from the model",
                                 {"observed": [g[:1] + (g[1] if g[0] != 'obj' else 'obj',) for g in got],
                                  "expected": [g[:1] + (g[1] if g[0] != 'obj' else 'obj',) for g in R.exp_children[i]]}))
     return R
@@ -458,8 +475,13 @@ def plan(tier):
                     space=Map(fa, lambda body: [["block", body]]),
                     note="another tree is rendered while a block is active; an object in it raises from tagify(): the hook "
                          "chain is intact and later displayed values still reach the block's tag"))
-    srcs = ["copy", "deepcopy", "pickle", "tagify", "child-of-deepcopy", "used-before"]
-    sb = bodies(ATOMS_RED[:5], [2, 1])
+    hj = bodies([["disp", "str"], ["replace-hook"], ["raise"], ["disp", "tag"], ["disp", "set"]], [3, 2] if tier != "quick" else [2, 2])
+    out.append(dict(kind="space", name="foreign-code-replaces-the-hook-inside-a-block", fn=fn,
+                    space=Map(hj, lambda body: [["block", [["disp", "str"], ["block", body], ["disp", "str"]]]]),
+                    note="inside a block (itself nested in an outer block) foreign code assigns sys.displayhook and never restores it: "
+                         "every block exit still restores the hook installed at its entry, the outer blocks keep collecting"))
+    srcs = ["copy", "deepcopy", "pickle", "tagify", "child-of-deepcopy", "used-before", "structurally-equal"]
+    sb = bodies(ATOMS_RED[:5], [2, 2])
     out.append(dict(kind="space", name="tags-obtained-by-copying", fn=fn_source,
                     space=Prod(Const(srcs), Map(sb, lambda body: [["block", body]])),
                     note=f"every block's tag comes from {srcs} instead of a constructor call"))
